@@ -217,6 +217,7 @@ func run(c *hk.Ctx) {
 
 	r.bigInts()
 	r.endToEnd(cases)
+	r.histories(cases)
 }
 
 func mustJSON(v any) string {
@@ -501,6 +502,14 @@ func (r *runner) bind(cs tcase, _ reflect.Value, inst []byte, input func(map[str
 	if err == nil && inBindFragment(cs.td) {
 		back, _ := json.Marshal(target.Elem().Interface())
 		r.c.Emit(map[string]any{"c": "schema.bind", "t": cs.td, "inst": json.RawMessage(inst)}, map[string]any{"bound": json.RawMessage(back)}, true, "tdiff:bind")
+		// and a sparse call: the omitempty members left out (they must arrive as zero values)
+		sparse := sparseOf(cs.td.F, args)
+		sb, _ := json.Marshal(sparse)
+		st := reflect.New(cs.t)
+		if mcp.VerifBindArguments(sparse, st.Interface()) == nil {
+			sback, _ := json.Marshal(st.Elem().Interface())
+			r.c.Emit(map[string]any{"c": "schema.bind", "t": cs.td, "inst": json.RawMessage(sb)}, map[string]any{"bound": json.RawMessage(sback)}, true, "tdiff:bind-sparse")
+		}
 	}
 	same := err == nil
 	if same {
